@@ -418,3 +418,46 @@ Fixpoint run_groups (s : snapshot) (gs : list group_in) (cloud : list asg) : lis
   end.
 
 Definition run_once (s : snapshot) : list (id * gresult) * outcome := run_groups s (s_groups s) (s_cloud s).
+
+(* ---------- RunOnce's prelude: refresh the provider, rebuilding it while the refresh fails ---------- *)
+(* err := Refresh(); for i := 0; i < 2 && err != nil; i++ { sleep; provider, err = Build(); if err != nil { return err };
+   err = provider.Refresh() }; the groups are scanned whatever err is then.  Refresh and Build both come down to one
+   DescribeAutoScalingGroups call (Build: RegisterNodeGroups): ds lists the outcomes of the successive calls, a
+   missing entry meaning success.  A rebuilt provider starts with fresh NodeGroup objects: the clean-up counters are 0. *)
+Inductive prelude_result := PGo (rebuilt : bool) | PStop.
+
+Fixpoint prelude_rounds (i : nat) (ds : list bool) : prelude_result :=
+  match i with
+  | O => PGo true
+  | S i' =>
+    match ds with
+    | [] => PGo true
+    | built :: ds' =>
+      if built then
+        match ds' with
+        | [] => PGo true
+        | refreshed :: ds'' => if refreshed then PGo true else prelude_rounds i' ds''
+        end
+      else PStop
+    end
+  end.
+
+Definition prelude (ds : list bool) : prelude_result :=
+  match ds with
+  | [] => PGo false
+  | refreshed :: ds' => if refreshed then PGo false else prelude_rounds 2 ds'
+  end.
+
+Definition reset_tries (s : snapshot) : snapshot :=
+  {| s_now := s_now s; s_dry := s_dry s; s_groups := s_groups s; s_nodes := s_nodes s; s_pods := s_pods s; s_api := s_api s;
+     s_cloud := map (fun a => set_tries a 0) (s_cloud s) |}.
+
+(* the snapshot the groups are scanned from *)
+Definition after_prelude (ds : list bool) (s : snapshot) : snapshot :=
+  match prelude ds with PGo true => reset_tries s | _ => s end.
+
+Definition run_once_p (ds : list bool) (s : snapshot) : list (id * gresult) * outcome :=
+  match prelude ds with
+  | PStop => ([], OutErr)          (* RunOnce returns Build's error: RunForever returns it and the process ends *)
+  | PGo _ => run_once (after_prelude ds s)
+  end.
